@@ -571,7 +571,11 @@ func runNested(r *vh.Rand, cfg *vh.Config, res *vh.Result, cf *vh.CasesFile, cas
 			kind = "oneof"
 		}
 		counter := 0
-		s := genNSchema(r, env, kind, 2, &counter)
+		depth := 2
+		if u%8 == 0 {
+			depth = 3 // pinned: inline types nested four levels deep (schema names with three underscores; seeded C04-H)
+		}
+		s := genNSchema(r, env, kind, depth, &counter)
 		hasInline := false
 		for _, f := range s.Fields {
 			hasInline = hasInline || f.Inl != nil
